@@ -80,7 +80,15 @@ func c05Run(r *core.Run) {
 		add("revoked:intermediate-"+pos+"-of-many", rej, "the intermediate's serial is listed ("+pos+" of many entries)", func() { w.RootCrl.Revoked = mk(inter); w.Publish() })
 	}
 	// near misses and the other CRL: never a reason to accept more, never required to reject
+	near0 := func(s *big.Int, k int) *big.Int { return nil }
 	near := func(s *big.Int, k int) *big.Int {
+		n := near0(s, k)
+		if n.Cmp(s) == 0 { // a one-byte or palindromic serial is its own mirror image: take a neighbour instead
+			n = new(big.Int).Add(s, big.NewInt(2))
+		}
+		return n
+	}
+	near0 = func(s *big.Int, k int) *big.Int {
 		b := s.Bytes()
 		switch k {
 		case 0:
